@@ -5,7 +5,7 @@ import csv, json, os, re
 rows = list(csv.DictReader(open("/verif/seeded/MATRIX.tsv"), delimiter="\t"))
 blind = {}
 blind_counts = []
-for fn, label in [("MATRIX-blind.tsv", "round-2 changes against revision 6f8271e"), ("MATRIX-blind3.tsv", "round-3 changes against revision d9cebbd"), ("MATRIX-blind4.tsv", "round-4 changes against revision 26dbf04"), ("MATRIX-blind5.tsv", "round-5 changes against revision d7008d8")]:
+for fn, label in [("MATRIX-blind.tsv", "round-2 changes against revision 6f8271e"), ("MATRIX-blind3.tsv", "round-3 changes against revision d9cebbd"), ("MATRIX-blind4.tsv", "round-4 changes against revision 26dbf04"), ("MATRIX-blind5.tsv", "round-5 changes against revision d7008d8"), ("MATRIX-blind6.tsv", "round-6 changes against revision 7a2fd51")]:
     if os.path.exists("/verif/seeded/" + fn):
         rs = list(csv.DictReader(open("/verif/seeded/" + fn), delimiter="\t"))
         for r in rs:
